@@ -3443,7 +3443,14 @@ class Session(_SessionClassMethods, EventTarget):
         cascaded = list(
             state.manager.mapper.cascade_iterator("expunge", state)
         )
-        self._expunge_states([state] + [st_ for o, m, st_, dct_ in cascaded])
+        self._expunge_states(
+            [state]
+            + [
+                st_
+                for o, m, st_, dct_ in cascaded
+                if st_.session_id == self.hash_key
+            ]
+        )
 
     def _expunge_states(
         self, states: Iterable[InstanceState[Any]], to_transient: bool = False
